@@ -22,6 +22,7 @@ ITER_TOOLS = ["zip", "map", "filter", "filterfalse", "enumerate", "iter", "accum
 AGG_TOOLS = ["all", "any", "sum", "reduce", "min", "max", "list", "tuple", "set", "dict",
              "sorted", "nlargest", "nsmallest"]
 LAZY_TOOLS = ITER_TOOLS + ["all", "any"]  # C05 scope
+ADAPTERS = ["any_iter", "await_each", "apply", "sync"]  # C19
 
 INVARIANTS = ["NoUseAfterFault", "NoPullAfterStop", "DeclZip", "DeclZipStrict", "DeclChain",
               "DeclISlice", "DeclMerge", "DeclSorted", "DeclMinMax", "DeclPairwise", "DeclBatched"]
@@ -81,6 +82,8 @@ def twin_expected(case, exp_log):
 
 def twin_applicable(case):
     cfg = case["cfg"]
+    if cfg["tool"] in tm.NO_TWIN:
+        return False  # asynctools has no standard-library counterpart: the spec is the reference
     if cfg["tool"] == "batched" and cfg["par"]["strict"]:
         return False  # itertools.batched(strict=) does not exist in the 3.12 oracle
     return True
@@ -126,7 +129,7 @@ def judge(args):
                                                            **detail}))
 
     is_agg = tool in tm.AGGREGATIONS
-    lazy = tool in LAZY_TOOLS
+    lazy = tool in LAZY_TOOLS or tool in ADAPTERS
 
     # ---- spec <-> stdlib twin (machinery)
     if opts.get("twin", True) and twin_applicable(case):
@@ -155,9 +158,16 @@ def judge(args):
     flavours = [{"src": "cls", "call": "asyncdef"}]
     if "C04" in want:
         flavours.append({"src": "agen", "call": "asyncdef"})
+    if "C19" in want:
+        # the shapes of the quantifier: list / iterator / async iterator, every callable flavour
+        fault_kinds = ["exc", "typeerr"] if kind == "fault" else ["exc"]
+        if tool == "sync":
+            flavours = [{"src": "cls", "call": c} for c in ("asyncdef", "def", "partial", "obj")]
+        elif tool == "any_iter":
+            flavours = [{"src": f, "call": "asyncdef"} for f in ("cls", "agen", "list", "iter")]
     for fl in flavours:
         for fk in fault_kinds:
-            if fl["src"] != "cls" and not ({"C04"} & want):
+            if fl["src"] != "cls" and not ({"C04", "C19"} & want):
                 continue
             o = tm.execute(case, L, flav=fl, susp=opts.get("susp", 1), fault_kind=fk)
             cnt("impl_replays")
@@ -205,6 +215,21 @@ def judge(args):
                     viol("C05", cls, {"projection": "pulls+calls+yields", "step": d[0], "expected": d[1], "observed": d[2],
                                       "expected_log": e, "observed_log": g})
                 cnt("C05_cases")
+            # C19: adapters -- the whole await/pull/call/yield interleaving and the result
+            if "C19" in want and tool in ADAPTERS:
+                e, g = tm.lazy_projection(exp_log), tm.lazy_projection(obs_log)
+                if fl["src"] == "list":   # pulls from a plain list are invisible
+                    e = [x for x in e if x["ev"] != "pull"]
+                    g = [x for x in g if x["ev"] != "pull"]
+                if kind == "fault":
+                    if o.fault_fired and o.exc_same is not True:
+                        viol("C19", "exception-not-propagated-unchanged", {"expected": "the injected object", "observed": {"ending": o.ending, "type": o.exc_type}})
+                    g = [x for x in g if x.get("ev") != "raise"]
+                cls, d = tm.lazy_diff_class(e, g)
+                if cls and not (kind == "fault" and not o.fault_fired):
+                    viol("C19", cls, {"projection": "awaits+pulls+calls+yields", "step": d[0], "expected": d[1], "observed": d[2],
+                                      "expected_log": e, "observed_log": g})
+                cnt("C19_cases")
             # C06: a failing use surfaces unchanged, nothing is used afterwards
             if "C06" in want and fl["src"] == "cls" and kind == "fault":
                 if not o.fault_fired:
@@ -275,6 +300,7 @@ def run_cases(cases, props, opts=None, procs=None):
 
 
 SCOPE = {
+    "C19": ADAPTERS,
     "C01": ITER_TOOLS,
     "C02": AGG_TOOLS,
     "C04": ITER_TOOLS + AGG_TOOLS,
@@ -292,8 +318,8 @@ def nontrivial(case):
 def check(prop, tier, seed):
     v = Verdict(prop, tier, seed)
     tools = SCOPE[prop]
-    need_faults = prop in ("C04", "C06")
-    need_prefix = prop in ("C04", "C05")
+    need_faults = prop in ("C04", "C06", "C19")
+    need_prefix = prop in ("C04", "C05", "C19")
     cases, stats = generate(tier, tools, faults=need_faults, prefixes=need_prefix)
     if prop in ("C01", "C02"):
         cases = [c for c in cases if case_kind(c) == "full"]
@@ -305,6 +331,14 @@ def check(prop, tier, seed):
     for p, sig, detail in res["viol"]:
         if p == prop:
             v.violation(sig, detail)
+    if prop == "C19":
+        L = tm.load_lib()
+
+        async def corofn(x):
+            return x
+
+        if L.sync(corofn) is not corofn:
+            v.violation("C19/sync/coroutine-function-not-returned-unchanged", {"engine": "toolmachine", "expected": "sync(f) is f", "observed": repr(L.sync(corofn))})
     rnd = random.Random(seed)
     for c in rnd.sample(cases, min(4, len(cases))):
         v.sample({"cfg": c["cfg"], "nnext": c["nnext"], "fault": c["fault"], "log": c["log"][:12]})
